@@ -76,9 +76,11 @@ static void* arenaAlloc(size_t n) {
     memset(p, 0xCD, n ? n : 1);       // fresh arena pages are zero: never hand out memory that looks initialised
     return p;
 }
+static bool g_keepFreed = false;     // case option "keepFreed": returned blocks keep their content (as with most allocators), so
+                                     // that e.g. a second destruction of an object gets as far as handing its blocks back again
 static void arenaFree(void* p, size_t n) {
 #if !defined(__SANITIZE_ADDRESS__)
-    memset(p, 0xDD, n ? n : 1);                                // make a later use of the block visible
+    if (!g_keepFreed) memset(p, 0xDD, n ? n : 1);              // make a later use of the block visible
 #endif
     C19_POISON(p, n ? n : 1);
 }
@@ -269,6 +271,10 @@ static const char* const PROBE_XSL =
     "<i><xsl:value-of select='concat(@n, \":\", .)'/></i></xsl:for-each><k><xsl:value-of select='key(\"k\", \"2\")'/></k></out></xsl:template>"
     "</xsl:stylesheet>";
 
+// the output file of file-to-file transformations: one fixed name (file names reach the library and influence
+// the allocation sequence); concurrent children overwrite each other's output, which nobody reads
+static std::string outFileName(const std::string& base) { return g_data + "/" + base; }
+
 struct OutBuf { std::string s; };
 static CallbackSizeType outWrite(const char* d, CallbackSizeType n, void* h) { static_cast<OutBuf*>(h)->s.append(d, n); return n; }
 static void outFlush(void*) {}
@@ -348,7 +354,7 @@ struct Child {
             const std::string out = st.str("out", "stream");
             std::ostringstream os; OutBuf ob;
             std::unique_ptr<XSLTResultTarget> target;
-            if (out == "file") target.reset(new XSLTResultTarget((g_data + "/" + st.str("outfile") + "." + std::to_string((long)getpid())).c_str()));
+            if (out == "file") target.reset(new XSLTResultTarget(outFileName(st.str("outfile")).c_str()));
             else if (out == "stream") target.reset(new XSLTResultTarget(os));
             call(api, [&]() -> int {
                 if (out == "callback") {
@@ -421,6 +427,7 @@ static void runChild(const J& c, bool parentInited, const char* flavour) {
     Child ch;
     const long k = (long)c.num("k");
     ch.mgr.failAt = k;
+    g_keepFreed = c.boolean("keepFreed");
     emit("{\"e\":\"Reset\",\"scenario\":" + jstr(c.str("scenario")) + ",\"k\":" + std::to_string(k) + ",\"build\":\"" + flavour +
          "\"}\n{\"e\":\"Start\",\"failAt\":" + std::to_string(k) + ",\"procInit\":" + (parentInited ? "true" : "false") + "}\n");
     for (auto& st : c.at("steps").a) {
